@@ -28,7 +28,7 @@ REG = {
         ],
     },
     "C14": {
-        "families": [("M", "field_kernels")],
+        "families": [("M", "field_kernels"), ("K", "field_addsub")],
         "explanation": (
             "Bounded symbolic verification of mechanisms (DESIGN.md section 5, C14). Engine M translates the rustc MIR "
             "(dumped from /repo's working tree in this run, overflow checks on) of the Goldilocks kernels into SMT-LIB over "
@@ -53,5 +53,67 @@ REG = {
         "trusted_base": TB_COMMON + ["MIR-to-SMT translator mir/translate.py (validated per run against native execution)"],
         "assumptions": ["SIMD Poseidon (hash/arch) and Keccak are outside",
                         "that the round constants are the published ones is not checked"],
+    },
+    "C05": {
+        "families": [("S", "fri"), ("K", "fri_params")],
+        "explanation": (
+            "Bounded symbolic verification of mechanisms (DESIGN.md section 5, C03/C05). The real verify_fri_proof is "
+            "executed in accept-path mode over a term-recording field on a proof whose every element (openings, leaf "
+            "values, Merkle siblings, commit-phase evaluations and caps, final-polynomial coefficients, initial caps) is a "
+            "symbol; Poseidon is a free function symbol with collision-free digest lanes (ideal-hash model); challenges "
+            "are held fixed at seeded constants, query indices are concrete. For every element position e: "
+            "Accept(pi) and Accept(pi[e += delta]) imply delta = 0 (solver: congruences mod p + uninterpreted hash with "
+            "injectivity instances). A position the verifier does not check makes the query satisfiable; it is then "
+            "confirmed natively: an honest proof of the same shape from the real prover, the element altered, the real "
+            "verifier called with the honest challenges held fixed. Kani decides the grinding check (leading zeros of the "
+            "pow response for all u64 responses), the arity schedules of the three reduction strategies (sum of arities <= "
+            "degree bits, ConstantArityBits postconditions, no panic) and FriParams' derived lengths for small parameters."),
+        "trusted_base": TB_COMMON + ["Kani 0.68 / CBMC 6.11 model of the compiled code (dev profile)"],
+        "assumptions": ["shapes and parameter ranges as listed per obligation; FRI proximity-gap soundness itself is the published analysis, not re-proved",
+                        "batch FRI (batch_fri/verifier.rs) is not in this run"],
+    },
+    "C03": {
+        "families": [("S", "fri")],
+        "explanation": (
+            "Bounded symbolic verification of mechanisms (DESIGN.md section 5, C03): element-by-element binding of the FRI "
+            "part of a proof. The real verify_fri_proof runs in accept-path mode on a fully symbolic proof (ideal-hash "
+            "model, challenges held fixed); for every element position e, Accept(pi) and Accept(pi[e += delta]) imply "
+            "delta = 0; the initial caps (which the plonk verifier takes from the verifier data) are pinned in the same "
+            "way. Counterexamples are confirmed natively on an honest proof from the real prover. The re-randomisation of "
+            "challenges by any change (transcript binding) is C04's subject."),
+        "trusted_base": TB_COMMON,
+        "assumptions": ["plonk-level openings / public inputs / shape validation are not in this run yet",
+                        "shapes as listed per obligation"],
+    },
+    "C15": {
+        "families": [("K", "util_perm")],
+        "explanation": (
+            "Bounded model checking (Kani/CBMC) of the compiled index/permutation helpers: reverse_index_bits and "
+            "reverse_index_bits_in_place for every n = 2^k, k = 0..8, all contents and a symbolic position "
+            "(out[i] == in[bitrev(i)], no out-of-bounds unsafe access), log2_ceil / log2_strict / bits_u64 over all "
+            "arguments, log_floor for listed bases."),
+        "trusted_base": ["Kani 0.68 / CBMC 6.11 (cadical) model of the compiled code (dev profile, unwinding assertions on)"],
+        "assumptions": ["the chunked big-element path of reverse_index_bits_in_place / transpose_in_place_square exceeded memory under CBMC and is outside",
+                        "FFT / polynomial algebra obligations (engine S) are not in this run yet"],
+    },
+    "C17": {
+        "families": [("K", "codec")],
+        "explanation": (
+            "Bounded model checking (Kani/CBMC) of the paired Write/Read primitives of util/serialization: write_X then "
+            "read_X returns the same value and consumes exactly the written bytes for bool, u8..usize, usize vectors "
+            "(len <= 2), field and extension elements, both Target variants, FRI reduction strategies, FriConfig and "
+            "CircuitConfig, for all values."),
+        "trusted_base": ["Kani 0.68 / CBMC 6.11 (cadical) model of the compiled code (dev profile, unwinding assertions on)"],
+        "assumptions": ["whole-proof, gate/generator registries and CircuitData round trips are outside (far beyond the model checker's reach)"],
+    },
+    "C18": {
+        "families": [("K", "decoders")],
+        "explanation": (
+            "Bounded model checking (Kani/CBMC) of the primitive proof-decoder routines on ARBITRARY byte strings of the "
+            "listed lengths: read_bool/u8/u32/usize, read_field, read_hash, read_target return Ok or Err exactly as "
+            "specified and never panic, overflow or index out of bounds (dev profile, debug assertions on)."),
+        "trusted_base": ["Kani 0.68 / CBMC 6.11 (cadical) model of the compiled code (dev profile, unwinding assertions on)"],
+        "assumptions": ["shape validation and whole-proof decoders are not in this run yet",
+                        "read_usize_vec (unvalidated length prefix) is reachable only from circuit-data decoders, outside C18's proof-decoder scope (DESIGN.md section 7)"],
     },
 }
